@@ -29,6 +29,7 @@ DECIDED = [
     "raise _NoAction on every normal path; _NoAction is a BaseException that is not an Exception",
     "R-C16-CALLBACKS: set_result/set_exception overwrite one lazy slot that inserts at the position current at call "
     "time; __execute_callbacks fires the slot first and then awaits the callbacks in list order",
+    "R-C16-TYPESTATE (connection): a Message handle is created on the connection of the queue it was taken from (connection propagation rule)",
 ]
 NOT_DECIDED = ["user code catching BaseException inside an actor (outside the analysed program)"]
 ASSUMPTIONS = ["Message actions are only reachable through the methods analysed (no monkey-patching)"]
